@@ -188,6 +188,7 @@ func init() {
 		"internal/bytealg.CompareString":   strCompare,
 		"internal/bytealg.Compare":         strCompare,
 		"strings.Clone":                    func(fr *frame, args []value) value { return args[0] },
+		"internal/stringslite.Clone":       func(fr *frame, args []value) value { return args[0] },
 
 		// ---- runtime / os
 		"runtime.GOMAXPROCS":     constFn(1),
@@ -229,7 +230,17 @@ func init() {
 		"math.Float64frombits": func(fr *frame, a []value) value { return math.Float64frombits(a[0].(uint64)) },
 		"math.Float32bits":     func(fr *frame, a []value) value { return math.Float32bits(a[0].(float32)) },
 		"math.Float32frombits": func(fr *frame, a []value) value { return math.Float32frombits(a[0].(uint32)) },
-		"math.Abs":             m1(math.Abs),
+		"math.Abs": func(fr *frame, a []value) value {
+			if f, ok := a[0].(symFloat); ok {
+				ts := fr.i.ts
+				neg := ts.Bin(term.OpSLt, f.num, ts.Const(64, 0))
+				return symFloat{num: ts.Ite(neg, ts.Un(term.OpNeg, f.num), f.num), div: f.div}
+			}
+			return math.Abs(a[0].(float64))
+		},
+		"(time.Duration).Hours":   durFloat(3600e9),
+		"(time.Duration).Minutes": durFloat(60e9),
+		"(time.Duration).Seconds": durFloat(1e9),
 		"math.Floor":           m1(math.Floor),
 		"math.Ceil":            m1(math.Ceil),
 		"math.Trunc":           m1(math.Trunc),
@@ -302,6 +313,17 @@ func init() {
 		"fmt.Fprintf":  fmtFprintf,
 		"fmt.Fprintln": fmtFprint(true),
 		"fmt.Fprint":   fmtFprint(false),
+	}
+}
+
+// durFloat models Duration.Hours/Minutes/Seconds on a symbolic duration as the
+// exact rational d/unit (see symFloat); concrete durations run the real body.
+func durFloat(unit int64) intrinsic {
+	return func(fr *frame, args []value) value {
+		if s, ok := args[0].(*Sym); ok {
+			return symFloat{num: fr.i.to64(s), div: unit}
+		}
+		return fr.i.interpretBody(fr, args)
 	}
 }
 
@@ -986,4 +1008,94 @@ func errorsAs(fr *frame, args []value) value {
 		err = r
 	}
 	return false
+}
+
+// ------------------------------------------------------------------ sync.Map
+
+func (in *Interp) syncMap(p value) *omap {
+	key := fld(p, 0)
+	if m, ok := in.syncMaps[key]; ok {
+		return m
+	}
+	m := newOmap(types.NewInterfaceType(nil, nil))
+	in.syncMaps[key] = m
+	return m
+}
+
+func init() {
+	sm := map[string]intrinsic{
+		"(*sync.Map).Load": func(fr *frame, a []value) value {
+			fr.i.yield(fr)
+			if e := fr.i.mapFind(fr.i.syncMap(a[0]), a[1]); e != nil {
+				return tuple{e.val, true}
+			}
+			return tuple{iface{}, false}
+		},
+		"(*sync.Map).Store": func(fr *frame, a []value) value {
+			fr.i.yield(fr)
+			fr.i.mapInsert(fr.i.syncMap(a[0]), a[1], a[2])
+			return nil
+		},
+		"(*sync.Map).LoadOrStore": func(fr *frame, a []value) value {
+			fr.i.yield(fr)
+			m := fr.i.syncMap(a[0])
+			if e := fr.i.mapFind(m, a[1]); e != nil {
+				return tuple{e.val, true}
+			}
+			fr.i.mapInsert(m, a[1], a[2])
+			return tuple{a[2], false}
+		},
+		"(*sync.Map).LoadAndDelete": func(fr *frame, a []value) value {
+			fr.i.yield(fr)
+			m := fr.i.syncMap(a[0])
+			if e := fr.i.mapFind(m, a[1]); e != nil {
+				v := e.val
+				fr.i.mapDelete(m, a[1])
+				return tuple{v, true}
+			}
+			return tuple{iface{}, false}
+		},
+		"(*sync.Map).Delete": func(fr *frame, a []value) value {
+			fr.i.yield(fr)
+			fr.i.mapDelete(fr.i.syncMap(a[0]), a[1])
+			return nil
+		},
+		"(*sync.Map).Swap": func(fr *frame, a []value) value {
+			fr.i.yield(fr)
+			m := fr.i.syncMap(a[0])
+			var prev value = iface{}
+			loaded := false
+			if e := fr.i.mapFind(m, a[1]); e != nil {
+				prev, loaded = e.val, true
+			}
+			fr.i.mapInsert(m, a[1], a[2])
+			return tuple{prev, loaded}
+		},
+		"(*sync.Map).Clear": func(fr *frame, a []value) value {
+			fr.i.mapClear(fr.i.syncMap(a[0]))
+			return nil
+		},
+		"(*sync.Map).Range": func(fr *frame, a []value) value {
+			in := fr.i
+			m := in.syncMap(a[0])
+			var snap []*mentry
+			for _, e := range m.entries {
+				if !e.dead {
+					snap = append(snap, e)
+				}
+			}
+			for _, e := range snap {
+				if e.dead {
+					continue
+				}
+				if !in.truth(in.call(fr, token.NoPos, a[1], []value{e.key, e.val})) {
+					break
+				}
+			}
+			return nil
+		},
+	}
+	for k, v := range sm {
+		intrinsics[k] = v
+	}
 }
